@@ -27,6 +27,9 @@ def pos_units(t):
     return [u_pos(t, e, k, lz) for (e, k) in EOLS for lz in (0, 1)]
 
 
+def u_atoms(t, lazy=0): return t_unit('t_atoms_%s' % ('lazy' if lazy else 'eager'), 'ATOMS', ['-DATOMS_LAZY=%d' % lazy], tier=t)
+
+
 T_ASSUME = [
     'the reference interpreter (engine/ref.hpp) is the PEG formalism / the documented expansions',
     'table-dispatched grammars behave like static grammars of named rules (T<->static conformance is checked under C01)',
@@ -45,7 +48,7 @@ CHECKS = {
         'assumptions': T_ASSUME,
     },
     'C09': {
-        'units': lambda t: [u_conv(t)],
+        'units': lambda t: [u_conv(t), u_atoms(t, 0)],
         'rule': 'every convenience rule of the statement (2- and 3-argument forms, all numeric bounds 0..4) as root over hole sub-rules, one level below '
                 'each classical operator and above seq/sor/star/opt/not_at, plus closed tables over {a,b}; reference evaluates the documented expansion; '
                 'both top-level rewind modes',
@@ -71,6 +74,15 @@ CHECKS = {
                 'visible) is run through the protocol automaton start;(apply|apply0)?;(success|failure|unwind) with proper nesting',
         'assumptions': T_ASSUME,
     },
+    'C03': {
+        'units': lambda t: [u_atoms(t, 0), u_atoms(t, 1), u_conv(t), u_core(t)],
+        'rule': 'every library atom (ascii convenience rules, integer rules, raw_string, predicates, utf8::any, eol family, istring, bytes, everything) as root and '
+                'one level below each classical operator, all inputs over a per-family alphabet (length <=4..6) plus boundary numerals, on terminator-less '
+                'buffers with a PROT_NONE page directly after the input (pass 1) and directly before it (pass 2), eager and lazy; nested windows (rematch, minus) '
+                'from the convenience space; oracle: no guard-page fault, no peek_char(offset)/bump(count) reaching the end of the current window '
+                '(TAO_PEGTL_VERIF hook), cursor <= end at every rule entry/exit',
+        'assumptions': T_ASSUME + ['reads through std::memcmp on current() are only seen by the guard page, i.e. for windows that end at the physical end of the buffer'],
+    },
     'C06': {
         'units': lambda t: [dict(u, shards=8) for u in pos_units(t)],
         'rule': 'tables (<=3 rules) over seq sor star plus opt at not_at until(1,2) and the newline-capable atoms any one<LF> one<CR> not_one range<0,127> '
@@ -81,7 +93,7 @@ CHECKS = {
         'assumptions': T_ASSUME + ['UTF-16/32 and multi-byte binary rules excluded as documented by the library'],
     },
     'C02': {
-        'units': lambda t: [u_core(t), u_conv(t), u_exc(t, 0), u_act(t, 0)],
+        'units': lambda t: [u_core(t), u_conv(t), u_exc(t, 0), u_act(t, 0), u_atoms(t, 0), u_atoms(t, 1)],
         'rule': 'cursor (pointer, byte, line, column) compared before/after every Control<Rule>::match invocation, internal rules included, in every '
                 'execution of the core, convenience, exception and action spaces',
         'assumptions': T_ASSUME,
@@ -89,7 +101,7 @@ CHECKS = {
 }
 
 NOT_YET = {}
-HOOK_COMMITS = []
+HOOK_COMMITS = ['d382928']
 ENGINES = [
     {'name': 'table-engine', 'path': 'engine/t.hpp engine/ref.hpp engine/pipeline.hpp checks/tmain.cpp checks/spaces.hpp',
      'serves_properties': ['C01', 'C02', 'C04', 'C05', 'C08', 'C09'],
